@@ -43,6 +43,23 @@ def dictCreate (lines : List (List Tok)) (maxSize maxSeq : Option Nat) : DictM :
   let kept := topK (countAll used.flatten) maxSize
   { entries := kept, freqSum := (kept.map (·.2)).sum }
 
+/-- is `(entries, freqSum)` an answer `Dictionary::create` may give?  (The property: exactly the frequencies of
+the tokens of the first `max_sequences` lines, restricted to `max_size` entries none of which is less frequent
+than an omitted one, `freq_sum` their total.  Which of several equally frequent tokens survive the cut is not
+fixed by the property.) -/
+def dictAccept (lines : List (List Tok)) (maxSize maxSeq : Option Nat) (entries : List (Tok × Nat)) (freqSum : Nat) : Bool :=
+  let used := match maxSeq with | none => lines | some m => lines.take m
+  let toks := used.flatten
+  let all := countAll toks
+  let want := match maxSize with | none => all.length | some k => min k all.length
+  let keys := entries.map (·.1)
+  let minKept := (entries.map (·.2)).foldl min (toks.length + 1)
+  keys.eraseDups.length == keys.length &&
+  entries.all (fun e => 0 < e.2 && e.2 == countOf toks e.1) &&
+  entries.length == want &&
+  all.all (fun e => keys.contains e.1 || e.2 ≤ minKept) &&
+  freqSum == (entries.map (·.2)).sum
+
 /-- `get_closest`: minimal distance over all entries, and the largest frequency among those -/
 def closestSpec (query : List (List Nat)) (entries : List (List (List Nat) × Nat)) (normalized : Bool) :
     Option (List Nat × Nat) :=
